@@ -127,6 +127,11 @@ def base_hook(extra=None):
                 return v if value(v) >= 0 else c(0) - v
             if isinstance(v, float):
                 return abs(v)
+        if nm == "sign" and len(call.args) == 1:
+            v = ev.eval(call.args[0])
+            x = value(v) if isinstance(v, Rat) else v
+            if isinstance(x, (int, float, Fraction)) and not isinstance(x, bool):
+                return c(1 if x > 0 else (-1 if x < 0 else 0))
         if nm in ("arccos", "arcsin", "arctan", "acos", "asin", "atan", "clip", "arctan2", "atan2") and call.args:
             args = [ev.eval(a) for a in call.args]
             nums = [float(value(a)) if isinstance(a, Rat) else a for a in args]
